@@ -516,3 +516,41 @@ Example wait_idle_sched_real_protocol :
   let s2 := run cfg3 s1 [EvC 1; EvC 1; EvC 2] in
   nth_error (cl s2) 2%nat = Some CIdle /\ executed s2 = [[1]].
 Proof. vm_compute. repeat split; reflexivity. Qed.
+
+(* ------------------------------------------------------------------ *)
+(* Seeded change C11-11: ONE ticker per executor, created by the first flusher and reused by every
+   restarted one - although a flusher that idle-quits still stops it.  A stopped ticker never fires
+   again: once some flusher has been through ticker.Stop(), no tick is delivered any more. *)
+Definition ticker_stopped (p : bpc) : bool := match p with BExit _ | BDead => true | _ => false end.
+Definition onetick_step (cfg : config) (s : state) (e : ev) : option state :=
+  match e with
+  | EvTick => if existsb ticker_stopped (fl s) then None else step cfg s e
+  | _ => step cfg s e
+  end.
+Definition onetick_run (cfg : config) (s : state) (sched : list ev) : state :=
+  fold_left (fun s e => match onetick_step cfg s e with Some s' => s' | None => s end) sched s.
+
+(* use (Add 1, flushed by a tick), idle quit, Add 2 below the threshold restarts the flusher; two ticks *)
+Definition onetick_sched : list ev :=
+  [EvCall 0 (CAdd 1 1); EvC 0; EvB 0 false;
+   EvTick; EvB 0 true; EvB 0 false; EvB 0 false; EvB 0 false; EvB 0 false;
+   EvClock 20000; EvTick; EvB 0 true; EvB 0 false; EvB 0 false; EvB 0 false; EvB 0 false;
+   EvB 0 false; EvB 0 false; EvB 0 false; EvB 0 false; EvB 0 false; EvB 0 false;
+   EvCall 0 (CAdd 2 1); EvC 0; EvB 1 false;
+   EvTick; EvB 1 true; EvB 1 false; EvB 1 false; EvB 1 false; EvB 1 false;
+   EvTick; EvB 1 true; EvB 1 false; EvB 1 false; EvB 1 false; EvB 1 false].
+
+Theorem reused_stopped_ticker_refuted :
+  let s := onetick_run cfg3 (init 1) onetick_sched in
+  cl s = [CIdle] /\ guarded s = true /\ fl s = [BDead; BSelect false 1020000] /\
+  accepted s = [1; 2] /\ executed s = [[1]] /\ cont s = [2] /\ tick s = false /\
+  (* ... and no tick will ever come: EvTick is disabled from here on *)
+  onetick_step cfg3 s EvTick = None.
+Proof. vm_compute. repeat split; reflexivity. Qed.
+
+(* the real protocol (a new ticker for every flusher) on the same schedule: the first tick after the
+   restart flushes task 2 *)
+Example onetick_sched_real_protocol :
+  let s := run cfg3 (init 1) onetick_sched in
+  cl s = [CIdle] /\ executed s = [[1]; [2]] /\ cont s = [].
+Proof. vm_compute. repeat split; reflexivity. Qed.
